@@ -87,9 +87,9 @@ fn one(out: &mut Out, rng: &mut Rng, file: &GenFile, tt: &TT, d: &mut Ddnnf, tma
 pub fn c09(a: &Args) {
     let mut rng = Rng::new(a.seed);
     let mut out = Out::new(&a.out);
-    let cfg = if a.thorough() { SpaceCfg { g1_max_n: 3, g1_rate: 0.05, random_d4: 420, random_c2d: 160, max_n: 7, min_n: 2 } }
-              else { SpaceCfg { g1_max_n: 2, g1_rate: 0.5, random_d4: 70, random_c2d: 30, max_n: 6, min_n: 2 } };
-    let (tmax, repeats) = if a.thorough() { (5, 4) } else { (3, 2) };
+    let cfg = if a.thorough() { SpaceCfg { g1_max_n: 3, g1_rate: 0.05, random_d4: 1500, random_c2d: 300, max_n: 8, min_n: 2 } }
+              else { SpaceCfg { g1_max_n: 2, g1_rate: 0.3, random_d4: 260, random_c2d: 40, max_n: 8, min_n: 3 } };
+    let (tmax, repeats) = if a.thorough() { (5, 5) } else { (5, 3) };
     let mut r2 = rng.fork();
     let mut shown = 0;
     for_each_model(&cfg, &mut rng, |file, tt| {
@@ -119,5 +119,5 @@ pub fn c09(a: &Args) {
             } }
         }
     }
-    out.finish("every model of the C01 space (n <= 6 quick / 7 thorough) x t in 1..3 (quick) / 1..5 (thorough) x {plain, fitness vectors with negative, zero, tied and fractional values} x 2 (quick) / 4 (thorough) runs each (every run differs in hash iteration order): stream `t-wise l t [f ..]`; every configuration must be a complete model and every t-interaction contained in a model must be contained in a configuration (brute force over the truth table of the input text); the same sample is judged by the Lean checker TWise.check (proved sound) on the exported node array; corpus models with <= 60 features for t = 1, 2 judged by count / sat");
+    out.finish("every model of the C01 space (n <= 8) x t in 1..5 x {plain, fitness vectors with negative, zero, tied and fractional values} x 3 (quick) / 5 (thorough) runs each (every run differs in hash iteration order): stream `t-wise l t [f ..]`; every configuration must be a complete model and every t-interaction contained in a model must be contained in a configuration (brute force over the truth table of the input text); the same sample is judged by the Lean checker TWise.check (proved sound) on the exported node array; corpus models with <= 60 features for t = 1, 2 judged by count / sat");
 }
